@@ -1,60 +1,106 @@
 ------------------------------ MODULE Registry ------------------------------
-(* Model of logger.NewLogger (logger/logger.go:133-145): a package-level     *)
-(* name |-> Logger map with get-or-create.  Atomic = TRUE is the code as      *)
-(* found: look-up and insertion happen under one exclusive lock, i.e. in one  *)
-(* step.  Atomic = FALSE is the classic broken shape (look up under a read    *)
-(* lock, create and insert later without looking again): two callers of a     *)
-(* new name each get their own object.  Every return is shown to the          *)
-(* SharedContract monitor (same name => same object).                         *)
+(* Model of the logger registry (logger/logger.go:61-160, options.go:83-105): *)
+(* a package-level name |-> Logger map behind an RWMutex, NewLogger           *)
+(* (get-or-create) and ApplyOptionsToLoggers (walks all registered loggers).  *)
+(* Atomic = TRUE is the code as found for NewLogger: look-up and insertion    *)
+(* happen under the exclusive lock, i.e. in one step that needs the lock      *)
+(* free of readers.  Atomic = FALSE is the classic broken shape (look up,     *)
+(* create and insert later without looking again).                            *)
+(* RegistryWalkUnlocked = FALSE is the code as found for the walk: getLoggers *)
+(* copies the map while holding the read lock and the caller walks the copy.  *)
+(* RegistryWalkUnlocked = TRUE hands out the live map: the read lock is       *)
+(* released before the walk, so an insertion can happen in the middle of the  *)
+(* iteration - a data race, and a fatal "concurrent map iteration and map     *)
+(* write" of the Go runtime; the model shows that moment to the monitor as a  *)
+(* `race` event.  Every NewLogger return is shown as `newlogger`.             *)
 EXTENDS SharedContract, Integers, TLC
 
-CONSTANTS NG,        \* goroutines 1..NG
+CONSTANTS NG,        \* goroutines 1..NG calling NewLogger
           LNames,    \* logger names
           Calls,     \* NewLogger calls per goroutine
-          Atomic
+          Atomic,
+          NW,        \* goroutines NG+1..NG+NW calling ApplyOptionsToLoggers
+          Walks,     \* walks per walker
+          RegistryWalkUnlocked
 
-VARIABLES reg, nobj, st, cur, seen, left, c
-vars == <<reg, nobj, st, cur, seen, left, c>>
+VARIABLES reg, nobj, st, cur, seen, left, rlock, wst, todo, wleft, c
+vars == <<reg, nobj, st, cur, seen, left, rlock, wst, todo, wleft, c>>
 G == 1..NG
+W == (NG + 1)..(NG + NW)
+Registered == {nm \in LNames : reg[nm] # 0}
 
 Init == /\ reg = [nm \in LNames |-> 0] /\ nobj = 0
         /\ st = [g \in G |-> "idle"] /\ cur = [g \in G |-> CHOOSE nm \in LNames : TRUE]
         /\ seen = [g \in G |-> 0] /\ left = [g \in G |-> Calls]
-        /\ c = CReset([kind |-> "registry", n |-> NG])
+        /\ rlock = {}                                  \* holders of the read lock
+        /\ wst = [w \in W |-> "idle"]                  \* idle | locked | live (walking the map itself) | copy (walking a private copy)
+        /\ todo = [w \in W |-> {}] /\ wleft = [w \in W |-> Walks]
+        /\ c = CReset([kind |-> "registry", n |-> NG + NW])
 
-Ret(g, nm, o) == c' = Feed(c, <<[ev |-> "newlogger", g |-> g, name |-> nm, obj |-> o]>>)
+LiveWalkers == {w \in W : wst[w] = "live"}
+(* a map insertion: legal only with the lock exclusively held; a walker in   *)
+(* the middle of a live iteration is hit by it                               *)
+InsertEvs(g) == IF LiveWalkers # {} THEN <<[ev |-> "race", site |-> "logger-registry"]>> ELSE <<>>
+RetEv(g, nm, o) == [ev |-> "newlogger", g |-> g, name |-> nm, obj |-> o]
 
 (* the whole call in one step: globalLoggersLock.Lock() ... Unlock() *)
 CallAtomic(g) ==
-  /\ Atomic /\ st[g] = "idle" /\ left[g] > 0
+  /\ Atomic /\ st[g] = "idle" /\ left[g] > 0 /\ rlock = {}
   /\ \E nm \in LNames :
-       LET o == IF reg[nm] # 0 THEN reg[nm] ELSE nobj + 1 IN
+       LET new == reg[nm] = 0
+           o == IF new THEN nobj + 1 ELSE reg[nm] IN
        /\ reg' = [reg EXCEPT ![nm] = o]
-       /\ nobj' = IF reg[nm] # 0 THEN nobj ELSE nobj + 1
-       /\ Ret(g, nm, o)
+       /\ nobj' = IF new THEN nobj + 1 ELSE nobj
+       /\ c' = Feed(c, (IF new THEN InsertEvs(g) ELSE <<>>) \o <<RetEv(g, nm, o)>>)
   /\ left' = [left EXCEPT ![g] = @ - 1]
-  /\ UNCHANGED <<st, cur, seen>>
+  /\ UNCHANGED <<st, cur, seen, rlock, wst, todo, wleft>>
 
 (* the split shape *)
 Check(g) ==
   /\ ~Atomic /\ st[g] = "idle" /\ left[g] > 0
   /\ \E nm \in LNames : cur' = [cur EXCEPT ![g] = nm] /\ seen' = [seen EXCEPT ![g] = reg[nm]]
   /\ st' = [st EXCEPT ![g] = "checked"]
-  /\ UNCHANGED <<reg, nobj, left, c>>
+  /\ UNCHANGED <<reg, nobj, left, rlock, wst, todo, wleft, c>>
 
 Create(g) ==
-  /\ ~Atomic /\ st[g] = "checked"
+  /\ ~Atomic /\ st[g] = "checked" /\ (seen[g] # 0 \/ rlock = {})
   /\ IF seen[g] # 0
-       THEN /\ Ret(g, cur[g], seen[g]) /\ UNCHANGED <<reg, nobj>>
+       THEN /\ c' = Feed(c, <<RetEv(g, cur[g], seen[g])>>) /\ UNCHANGED <<reg, nobj>>
        ELSE /\ reg' = [reg EXCEPT ![cur[g]] = nobj + 1] /\ nobj' = nobj + 1
-            /\ Ret(g, cur[g], nobj + 1)
+            /\ c' = Feed(c, InsertEvs(g) \o <<RetEv(g, cur[g], nobj + 1)>>)
   /\ st' = [st EXCEPT ![g] = "idle"] /\ left' = [left EXCEPT ![g] = @ - 1]
-  /\ UNCHANGED <<cur, seen>>
+  /\ UNCHANGED <<cur, seen, rlock, wst, todo, wleft>>
 
-Next == \E g \in G : CallAtomic(g) \/ Check(g) \/ Create(g)
+(* ApplyOptionsToLoggers: getLoggers() then a walk *)
+WLock(w) ==                                            \* globalLoggersLock.RLock()
+  /\ wst[w] = "idle" /\ wleft[w] > 0
+  /\ rlock' = rlock \cup {w} /\ wst' = [wst EXCEPT ![w] = "locked"]
+  /\ UNCHANGED <<reg, nobj, st, cur, seen, left, todo, wleft, c>>
+
+WUnlock(w) ==                                          \* ... RUnlock(): with a copy, or with the map itself
+  /\ wst[w] = "locked"
+  /\ rlock' = rlock \ {w}
+  /\ todo' = [todo EXCEPT ![w] = Registered]
+  /\ wst' = [wst EXCEPT ![w] = IF RegistryWalkUnlocked THEN "live" ELSE "copy"]
+  /\ UNCHANGED <<reg, nobj, st, cur, seen, left, wleft, c>>
+
+WStep(w) ==                                            \* one iteration of the range loop
+  /\ wst[w] \in {"live", "copy"} /\ todo[w] # {}
+  /\ \E nm \in todo[w] : todo' = [todo EXCEPT ![w] = @ \ {nm}]
+  /\ UNCHANGED <<reg, nobj, st, cur, seen, left, rlock, wst, wleft, c>>
+
+WEnd(w) ==
+  /\ wst[w] \in {"live", "copy"} /\ todo[w] = {}
+  /\ wst' = [wst EXCEPT ![w] = "idle"] /\ wleft' = [wleft EXCEPT ![w] = @ - 1]
+  /\ UNCHANGED <<reg, nobj, st, cur, seen, left, rlock, todo, c>>
+
+Next == \/ \E g \in G : CallAtomic(g) \/ Check(g) \/ Create(g)
+        \/ \E w \in W : WLock(w) \/ WUnlock(w) \/ WStep(w) \/ WEnd(w)
 Spec == Init /\ [][Next]_vars
 
 NotBad == ~IsBad(c)
 (* the registry itself never rebinds a name *)
 Stable == [][\A nm \in LNames : reg[nm] # 0 => reg'[nm] = reg[nm]]_vars
+(* stated on the model state: the map is never written while someone iterates it *)
+NoWriteDuringLiveWalk == [][LiveWalkers # {} => reg' = reg]_vars
 =============================================================================
